@@ -86,6 +86,10 @@ def invalidDigit (e : Env) (value index count : Nat) : Res :=
 def stepChecked (c : Cfg) (b : Bytes) : Except Err Bytes :=
   if b.index ≥ b.slc.length then .error (.fault "unchecked") else iterStep c .integer b
 
+/-- `is_suffix` of `fmt_invalid_digit!` (`uncased_base_suffix` holds `CASE_SENSITIVE_BASE_SUFFIX`) -/
+def isSuffixByte (c : Cfg) (ch : Nat) : Bool :=
+  if c.caseSensitiveBaseSuffix then ch == c.baseSuffix else eqIgnoreCase ch c.baseSuffix
+
 /-- outcome of `fmt_invalid_digit!`: `break` out of the digit loop, or `return` -/
 inductive Inv where
   | brk
@@ -103,8 +107,7 @@ def fmtInvalidDigit (e : Env) (b : Bytes) (ch startIndex value : Nat) (isEnd : B
       | .error x => .ret (.error x)
       | .ok diff =>
         if diff > 1 then
-          let isSuffix := if e.c.caseSensitiveBaseSuffix then ch == baseSuffix else eqIgnoreCase ch baseSuffix
-          if isSuffix && isEnd && b.isBufferEmpty then .brk
+          if isSuffixByte e.c ch && isEnd && b.isBufferEmpty then .brk
           else if !b.isBufferEmpty then
             match stepChecked e.c b with
             | .error x => .ret (.error x)
@@ -223,64 +226,73 @@ def parseSign (e : Env) (b : Bytes) : Except Err (Bool × Bytes) :=
     else .ok (false, b)
   | _ => if e.c.requiredMantissaSign then .error (.err "MissingSign" b.cursor) else .ok (false, b)
 
+/-- `if base_prefix != 0 && zeros == 1 { if iter.read_if_value(base_prefix, …).is_some() { … } }`: returns `is_prefix`,
+the iterator and the new `start_index` -/
+def readPrefix (e : Env) (b : Bytes) (zeros startIndex : Nat) : Flow (Bool × Bytes × Nat) :=
+  if e.c.basePrefix ≠ 0 && zeros == 1 then
+    match readIfValue e.c .integer e.c.basePrefix e.c.caseSensitiveBasePrefix b with
+    | .error x => .error (.error x)
+    | .ok (true, b) =>
+      if b.isBufferEmpty then .error (err "Empty" b.cursor) else .ok (true, b, startIndex + 1)
+    | .ok (false, b) => .ok (false, b, startIndex)
+  else .ok (false, b, startIndex)
+
+/-- `if !is_prefix && format.no_integer_leading_zeros() && zeros != 0 { … }` (every arm of its `match` returns) -/
+def leadingZeroCheck (e : Env) (isPrefix : Bool) (b : Bytes) (zeros startIndex : Nat) : Flow (Bytes × Nat) :=
+  if !isPrefix && e.c.flag Format.noIntegerLeadingZeros false && zeros != 0 then
+    match usizeSub e.c.debug b.cursor zeros with
+    | .error x => .error (.error x)
+    | .ok index =>
+      if zeros > 1 then .error (err "InvalidLeadingZeros" index)
+      else
+        match peek e.c .integer b with
+        | .error x => .error (.error x)
+        | .ok (some ch, b) =>
+          match charToDigit ch e.radix with
+          | some _ => .error (err "InvalidLeadingZeros" index)
+          | none => .error (invalidDigit e 0 (b.cursor + 1) (b.iterCount e.c .integer))
+        | .ok (none, b) => .error (intoOk e 0 b.cursor (b.iterCount e.c .integer))
+  else .ok (b, startIndex)
+
 /-- the `if format.has_base_prefix() || format.no_integer_leading_zeros() { … }` block; returns the iterator
 and the new `start_index` -/
 def prefixZeros (e : Env) (b : Bytes) (startIndex : Nat) : Flow (Bytes × Nat) :=
-  let basePrefix := e.c.basePrefix
-  let noLZ := e.c.flag Format.noIntegerLeadingZeros false
-  if basePrefix ≠ 0 || noLZ then
+  if e.c.basePrefix ≠ 0 || e.c.flag Format.noIntegerLeadingZeros false then
     match skipZeros e.c .integer b with
     | .error x => .error (.error x)
     | .ok (zeros, b) =>
-      let startIndex := startIndex + zeros
-      let pre : Flow (Bool × Bytes × Nat) :=
-        if basePrefix ≠ 0 && zeros == 1 then
-          match readIfValue e.c .integer basePrefix e.c.caseSensitiveBasePrefix b with
-          | .error x => .error (.error x)
-          | .ok (true, b) =>
-            if b.isBufferEmpty then .error (err "Empty" b.cursor) else .ok (true, b, startIndex + 1)
-          | .ok (false, b) => .ok (false, b, startIndex)
-        else .ok (false, b, startIndex)
-      match pre with
+      match readPrefix e b zeros (startIndex + zeros) with
       | .error r => .error r
-      | .ok (isPrefix, b, startIndex) =>
-        if !isPrefix && noLZ && zeros != 0 then
-          match usizeSub e.c.debug b.cursor zeros with
-          | .error x => .error (.error x)
-          | .ok index =>
-            if zeros > 1 then .error (err "InvalidLeadingZeros" index)
-            else
-              match peek e.c .integer b with
-              | .error x => .error (.error x)
-              | .ok (some ch, b) =>
-                match charToDigit ch e.radix with
-                | some _ => .error (err "InvalidLeadingZeros" index)
-                | none => .error (invalidDigit e 0 (b.cursor + 1) (b.iterCount e.c .integer))
-              | .ok (none, b) => .error (intoOk e 0 b.cursor (b.iterCount e.c .integer))
-        else .ok (b, startIndex)
+      | .ok (isPrefix, b, startIndex) => leadingZeroCheck e isPrefix b zeros startIndex
   else .ok (b, startIndex)
 
-/-- the part of `algorithm!` after the prefix / leading-zero block: `overflow_digits`, `cannot_overflow`, the four
+/-- `if cannot_overflow && is_negative { parse_digits_unchecked!(value, iter, wrapping_sub, …, true) }` -/
+def negBlock (e : Env) (cannotOverflow isNegative : Bool) (b : Bytes) (startIndex : Nat) : Flow (Bytes × Nat) :=
+  if cannotOverflow && isNegative then parseDigitsUnchecked e true true startIndex b 0 else .ok (b, 0)
+
+/-- (no `else` before it) `if cannot_overflow { … } else if is_negative { … } else { … }` -/
+def mainBlock (e : Env) (cannotOverflow isNegative : Bool) (b : Bytes) (value startIndex od : Nat) :
+    Flow (Bytes × Nat) :=
+  if cannotOverflow then parseDigitsUnchecked e false true startIndex b value
+  else if isNegative then parseDigitsChecked e true startIndex b value od
+  else parseDigitsChecked e false startIndex b value od
+
+/-- the part of `algorithm!` after `let overflow_digits = T::overflow_digits(radix);`: `cannot_overflow`, the four
 digit-loop branches and the final `$into_ok!` -/
-def digitsPhase (e : Env) (isNegative : Bool) (b : Bytes) (startIndex : Nat) : Flow Res :=
-  let od := overflowDigits e.t e.radix
+def digitsBody (e : Env) (isNegative : Bool) (b : Bytes) (startIndex od : Nat) : Flow Res :=
   if e.c.debug && decide (b.index > b.slc.length) then .error (.error (.panic "as_slice: cursor > len"))
   else
     let cannotOverflow := decide (b.asSlice.length ≤ od)
-    -- if cannot_overflow && is_negative { … }
-    let st1 : Flow (Bytes × Nat) :=
-      if cannotOverflow && isNegative then parseDigitsUnchecked e true true startIndex b 0 else .ok (b, 0)
-    match st1 with
+    match negBlock e cannotOverflow isNegative b startIndex with
     | .error r => .error r
     | .ok (b, value) =>
-      -- (no `else`) if cannot_overflow { … } else if is_negative { … } else { … }
-      let st2 : Flow (Bytes × Nat) :=
-        if cannotOverflow then parseDigitsUnchecked e false true startIndex b value
-        else if isNegative then parseDigitsChecked e true startIndex b value od
-        else parseDigitsChecked e false startIndex b value od
-      match st2 with
+      match mainBlock e cannotOverflow isNegative b value startIndex od with
       | .error r => .error r
       | .ok (b, value) => .ok (intoOk e value b.bufferLength (b.iterCount e.c .integer))
+
+/-- the part of `algorithm!` after the prefix / leading-zero block -/
+def digitsPhase (e : Env) (isNegative : Bool) (b : Bytes) (startIndex : Nat) : Flow Res :=
+  digitsBody e isNegative b startIndex (overflowDigits e.t e.radix)
 
 /-- `algorithm!` with the `format` feature -/
 def algorithm (e : Env) (s : List Nat) : Flow Res :=
